@@ -319,6 +319,53 @@ def match(expr, root):
     return notifying, everything, alias
 
 
+def nonterminal_keys(expr, root):
+    """Observables matched at a step that is not the last of its branch, i.e.
+    those whose change makes the maintainers re-walk part of the graph."""
+    out = set()
+    for b in expr:
+        objs = [root]
+        for depth, step in enumerate(b):
+            nxt_all = []
+            for o in objs:
+                obs, nxt = _step_objects(o, step)
+                if depth < len(b) - 1:
+                    for ob in obs:
+                        out.add((ob[0], id(ob[1])) + tuple(ob[2:]))
+                nxt_all.extend(nxt)
+            objs = nxt_all
+    return out
+
+
+OP_ATTR = {"set_child": "child", "set_lazy": "lazy", "read_lazy": "lazy",
+           "set_children": "children", "children_same": "children", "list": "children",
+           "set_table": "table", "dict": "table", "set_group": "group", "set": "group",
+           "set_grid": "grid", "grid_inner": "grid", "grid_outer": "grid",
+           "set_extra": "extra", "add_trait": "extra", "read": None}
+
+
+def inflight_keys(world, op):
+    """Keys of the observables an op is about to change (for the rule that
+    re-entrant actions must not conflict with the change being dispatched):
+    the trait for an assignment, the container for an in-place mutation."""
+    k = op["k"]
+    if k == "probe" or k not in OP_ATTR:
+        return set()
+    attr = OP_ATTR[k] or op.get("name")
+    m = world.mnodes[world.idx(op.get("o", 0))]
+    if k in ("list", "dict", "set", "grid_outer", "grid_inner"):
+        v = m.get(attr) if attr in m.traits() else UNSET
+        if not isinstance(v, (MList, MDict, MSet)):
+            return {("t", id(m), attr)}       # default about to be materialised
+        if k == "grid_inner":
+            return {("c", id(v[op["row"] % len(v)]))} if v else set()
+        return {("c", id(v))}
+    keys = {("t", id(m), attr)}
+    if k == "add_trait":
+        keys.add(("t", id(m), "trait_added"))
+    return keys
+
+
 def tkey(mnode, name):
     return ("t", id(mnode), name)
 
@@ -719,6 +766,7 @@ class World:
             else:
                 values.OBJECTS.clear()
         if val_exc or op_exc:
+            values.OBJECTS.clear()
             # ill-formed for the state it met: the graph world only means to run
             # well-formed ops; skipped without touching the object
             return []
@@ -731,6 +779,7 @@ class World:
                 ret, e = c07.sut_set_apply(cont, iop)
                 if iop["k"] == "pop" and e is None:
                     trial.discard(self.m_of(ret))
+            values.OBJECTS.clear()      # hold no strong references between ops
             if e is not None:
                 raise Violation("graph.op-raised", "%s on N%d.%s raised %r"
                                 % (iop["k"], m.uid, name, e), step)
